@@ -12,7 +12,9 @@ CHECKS = {
             "__call__) and of the factory BaseBackend.get_hist_func (constructor used through its contract) are discharged by an SMT solver from verification conditions generated on every run from the current source "
             "text; the invariant is inductive over every method, so the interpolation/copy/refusal clauses hold after ANY sequence "
             "of updates and queries, for all buffer sizes and times. A bounded native run of the same clauses on the real class "
-            "adds dtype/shape/aliasing coverage and is not counted as proof.", "5 C19"),
+            "adds dtype/shape/aliasing coverage and is not counted as proof. Frame contracts of the two adaptive DDE solvers that feed the history "
+            "(BaseBackend / TorchBackend._solve_scipy_dde): the history object is never stored into directly and changes only through DDEHistory.update, called "
+            "unconditionally for every accepted step (ownership analysis of the current source).", "5 C19"),
     note="Trusted: pyvc's encoding of the Python subset (cross-checked natively on every run), z3/cvc5, floats as reals, one representative "
          "component per state vector, numpy row assignment copies, documented contract of bisect.bisect_right, np.empty's first dimension.",
     technique="contract-based deductive verification: pyvc VC generation from the AST of the real methods + z3/cvc5; bounded native contract check as cross-check",
@@ -46,7 +48,8 @@ CHECKS = {
     technique="contract-based deductive verification of the index-selection helper (pyvc) + bounded differential contract checking (vectorize on vs off) on generated model families", engine="pyvc", rtc=True),
  "C09": dict(
     level=("other", "Deductive: the delay discretisation NetworkGraph._preprocess_delay returns round-half-even(delay/step) for fixed steps and the "
-            "delay itself otherwise, for all inputs. Bounded: run(solver='euler') against the explicitly delayed recurrence on families with mixed "
+            "delay itself otherwise, for all inputs; the decision whether a delay buffer is built at all (region of _collect_delays_from_edges: iff the largest "
+            "discretised delay exceeds the placeholder 1, resp. iff the largest continuous delay exceeds the step size). Bounded: run(solver='euler') against the explicitly delayed recurrence on families with mixed "
             "delayed/undelayed edges, shared sources/targets, rings, vectorize on/off.", "5 C09"),
     note="Trusted: pyvc encoding, np.round as round-half-even on reals; spec_fixed_step.",
     technique="contract-based deductive verification of the discretisation function + bounded contract checking of run() against the delayed recurrence",
@@ -109,7 +112,8 @@ CHECKS = {
     technique="contract-based deductive verification of the step-counter clause of every fixed-step loop (pyvc) + bounded contract checking of run(inputs=...) against the spec", engine="pyvc", rtc=True),
  "C10": dict(
     level=("other", "Deductive core: DDEHistory (initial state before the start, linear interpolant of the recorded trajectory afterwards) and the history "
-            "feed of the fixed-step loops ((i+1)*dt, y_{i+1}) after every step). Bounded: compiled functions of delayed models called with a hand-made "
+            "feed of the fixed-step loops ((i+1)*dt, y_{i+1}) after every step); frame contracts of the adaptive DDE solvers (history changed only through "
+            "DDEHistory.update, once per accepted step). Bounded: compiled functions of delayed models called with a hand-made "
             "history (component x of hist(t - tau), t in time units for adaptive and fixed-step code) and run() against an RK4 method-of-steps "
             "reference incl. coarse sampling.", "5 C10"),
     note="Trusted: as C19/C03; spec_rhs with hist; method-of-steps reference. The generated hist(...) lines are bounded only.",
@@ -150,16 +154,17 @@ CHECKS = {
  "C16": dict(
     level=("other", "Deductive (small core): a Connectivity object stores its source, target, delays and spread exactly as given (constructor contract, for every "
             "value incl. spread >= delays and None), and the cascade branch of _add_matrix_delay turns (delay, spread) into n = max(1, round((d/s)^2)) stages of rate "
-            "n/d - the numbers scalar edges get (contract shared with C11). Bounded: population circuits unit by unit against the reference semantics of the explicit "
+            "n/d - the numbers scalar edges get (contract shared with C11); the statement of PopulationTemplate.apply that distributes one params entry over the units "
+            "(per-unit sequence: unit k receives entry k; scalar: every unit; exactly n entries). Bounded: population circuits unit by unit against the reference semantics of the explicit "
             "node-and-edge network (signed, sparse, non-square matrices, scalar weights, heterogeneous params and initial states, delays and gamma kernels, coupling "
-            "edge templates incl. chained operators). PopulationTemplate.apply, _apply_populations_and_connections and _generate_edge_equation are bounded only.", "5 C16"),
+            "edge templates incl. chained operators). The dictionary walk of PopulationTemplate.apply, _apply_populations_and_connections and _generate_edge_equation are bounded only.", "5 C16"),
     note="Trusted: pyvc encoding; population_to_explicit + spec_fixed_step.",
     technique="contract-based deductive verification of the Connectivity constructor and the matrix-delay kernel arithmetic (pyvc, z3) + bounded contract checking of Population/Connectivity against the explicit network's spec",
     engine="pyvc", rtc=True),
  "C17": dict(
     level=("other", "Deductive (small frame core): adapt_circuit works on a deep copy - it never modifies, and never returns an alias of, the circuit it is given or "
             "the template object the YAML loader keeps ('leaves the circuits uncoupled from one another'); CircuitTemplate.update_var writes only into deep copies of node "
-            "templates. Bounded: every row of grid_search's parameter table against the spec trajectory of the individually parametrised circuit (node params, edge "
+            "templates; _get_indexed_var_str (contract shared with C06: a grouped source is read un-indexed only for the identity selection). Bounded: every row of grid_search's parameter table against the spec trajectory of the individually parametrised circuit (node params, edge "
             "attributes, several targets, permuted and DataFrame grids, inputs), vectorize on/off.", "5 C17"),
     note="Trusted: the ownership analysis and callee summaries; mdl_override + spec_fixed_step. linearize_grid / grid_search (pandas, whole pipeline) are bounded only.",
     technique="contract-based deductive verification of frame conditions on adapt_circuit / update_var: %s + bounded contract checking of grid_search against individual runs of the spec" % FR_,
